@@ -363,4 +363,31 @@ theorem legacy_ring_zero_buses :
 theorem legacy_join_groups_refused :
     (groupLegacy [1, 2, 3, 4] [⟨1, 2, true⟩, ⟨3, 4, true⟩, ⟨2, 4, true⟩]).isNone = true := by decide
 
+/-! ### Several breakers set in one call (D92) -/
+
+/-- A refusal changes nothing: the caller's plant keeps the positions it had (there is no state to return). -/
+theorem setStatus_refusal_is_total (cur : List (List Bool)) (ups : List (Nat × List Bool))
+    (h : setStatus cur ups = none) : ¬ (ups.all fun u => rowOk (callLength ups) u.2) = true := by
+  intro hall; simp [setStatus, hall] at h
+
+/-- Accepted calls set every row they name, in the order given. -/
+theorem setStatus_accepted (cur : List (List Bool)) (ups : List (Nat × List Bool))
+    (h : (ups.all fun u => rowOk (callLength ups) u.2) = true) : setStatus cur ups = some (ups.foldl assign cur) := by
+  simp [setStatus, h]
+
+/-- A breaker that is not operated (one value) next to an operated one (a series) is accepted in either order … -/
+example : setStatus [[true], [true]] [(1, [true, false, false, true]), (2, [false])] =
+      some [[true, false, false, true], [false]] ∧
+    setStatus [[true], [true]] [(2, [false]), (1, [true, false, false, true])] =
+      some [[true, false, false, true], [false]] := by decide
+
+/-- … as found it was refused, and the refusal left breaker 1 with the new series and breaker 2 with its old position:
+a state nobody asked for. -/
+theorem setStatus_legacy_half_updated :
+    setStatusLegacy [[true], [true]] [(1, [true, false, false, true]), (2, [false])] =
+      ([[true, false, false, true], [true]], false) := by decide
+
+/-- Series of two different lengths are refused, and nothing is set. -/
+example : setStatus [[true], [true]] [(1, [true, false]), (2, [false, true, true])] = none := by decide
+
 end Feems.Props.C02
